@@ -251,6 +251,13 @@ impl<'a, 'tcx> Cx<'a, 'tcx> {
                 return format!("{{\"i\":{},\"ty\":{}}}", esc(&v), esc(&ty_s(t)));
             }
         }
+        // references to statics
+        if let Const::Val(mir::ConstValue::Scalar(rustc_middle::mir::interpret::Scalar::Ptr(ptr, _)), _) = c.const_ {
+            let alloc_id = ptr.provenance.alloc_id();
+            if let Some(rustc_middle::mir::interpret::GlobalAlloc::Static(did)) = tcx.try_get_global_alloc(alloc_id) {
+                return format!("{{\"static\":{},\"ty\":{}}}", esc(&def_s(tcx, did)), esc(&ty_s(t)));
+            }
+        }
         // string literals
         if let ty::Ref(_, inner, _) = t.kind() {
             if inner.is_str() {
